@@ -16,7 +16,7 @@ from fractions import Fraction
 
 import numpy as np
 
-from .ast import SCALAR_KINDS
+from .ast import MATRIX_KINDS, SCALAR_KINDS, VECTOR_KINDS
 
 # ---------------------------------------------------------------------------
 # regularity tracking
@@ -26,7 +26,7 @@ from .ast import SCALAR_KINDS
 class Track:
     """Minimum distance to a singular set / largest magnitude met."""
 
-    __slots__ = ("margin", "mag", "bad")
+    __slots__ = ("margin", "mag", "bad", "dmag")
 
     def __init__(self):
         self.reset()
@@ -34,6 +34,7 @@ class Track:
     def reset(self):
         self.margin = math.inf
         self.mag = 0.0
+        self.dmag = 0.0  # largest derivative magnitude met (jet algebras)
         self.bad = False  # outside the domain (nan produced / negative log...)
 
     def m(self, v):
@@ -279,6 +280,14 @@ class JetAlg:
 
     def _mk(self, v, g, H):
         self.t.g(v)
+        if self.n:
+            gm = float(np.max(np.abs(g)))
+            if gm == gm and gm != math.inf and gm > self.t.dmag:
+                self.t.dmag = gm
+            if H is not None:
+                hm = float(np.max(np.abs(H)))
+                if hm == hm and hm != math.inf and hm > self.t.dmag:
+                    self.t.dmag = hm
         return Jet(np.float64(v), g, H)
 
     def const(self, v):
@@ -793,7 +802,7 @@ class Interp:
             m = self.M(n[1])
             self._same(len(m), len(m[0]), "diag")
             return [m[i][i] for i in range(len(m))]
-        if k in ("arr", "list"):
+        if k in ("arr", "list", "tuple"):
             return [a.const(float(x)) for x in n[1]]
         if k == "vbin":
             v = self.V(n[2])
@@ -836,6 +845,8 @@ class Interp:
             s = self.S(other)
             ws = [s] * len(v)
         else:
+            if ok in MATRIX_KINDS:
+                raise ShapeError(f"vector {op} 2-D operand")
             ws = self.V(other)
             if len(ws) != len(v):
                 if len(ws) == 1:
@@ -899,6 +910,8 @@ class Interp:
             s = a.const(float(other[1]))
             w = [[s] * c for _ in range(r)]
         else:
+            if ok in VECTOR_KINDS:
+                raise ShapeError(f"matrix {op} 1-D operand")
             w = self.M(other)
             if (len(w), len(w[0])) != (r, c):
                 raise ShapeError(f"matrix {op}: {(r, c)} vs {(len(w), len(w[0]))}")
